@@ -213,6 +213,7 @@ def run_cover(check, rule, visitor, targets, exclusions, min_overrides, block_ov
         if block_override_ok and node_ty == BLOCK and block_override_ok(tr, paths):
             check.ok(rule, "%s/%s/nested-block" % (rule, short(f)), hir.loc(f.rec), "nested BlockStmt is left to the block driver (BLOCK-DRIVER rule)")
             continue
+        paths = [p for p in paths if Traversal.feasible(p)]
         for p in paths:
             npaths += 1
             where = hir.loc(f.rec)
